@@ -27,7 +27,9 @@ fn class_of(codec: &Codec, input: &[u8], reenc: &[u8]) -> String {
     match codec.family {
         Family::CborAbi | Family::CborTyped | Family::CborEdict | Family::CborScene => {
             let o = codec.cbor_offset;
-            if input.len() >= o && reenc.len() >= o && input[..o] == reenc[..o] {
+            // EINT: the 4-byte length at 8..12 follows the payload; compare magic + op id only
+            let hdr = if o == 12 { 8 } else { o };
+            if input.len() >= o && reenc.len() >= o && input[..hdr] == reenc[..hdr] {
                 cborx::noncanonical_class(&input[o..], &reenc[o..])
             } else {
                 mutate::binary_class(input, reenc)
@@ -40,7 +42,23 @@ fn class_of(codec: &Codec, input: &[u8], reenc: &[u8]) -> String {
 /// Law (b) on one byte string. Returns true when the decoder accepted it.
 fn check_bytes(codec: &Codec, input: &[u8], origin: &str, rep: &mut Report, st: &mut stats::Local) -> bool {
     st.add("byte_strings_tried", 1);
-    match (codec.decode)(input) {
+    // Inputs whose declared lengths exceed the input or that nest >1000 deep can never be a
+    // complete value; they are C13's subject (and crash the unchanged ABI decoder in-process: F4).
+    let cborish = matches!(codec.family, Family::CborAbi | Family::CborTyped | Family::CborEdict | Family::CborScene);
+    if cborish && input.len() >= codec.cbor_offset && cborx::crash_class(&input[codec.cbor_offset..]) != "other" {
+        st.add("skipped_never_complete(C13 territory)", 1);
+        return false;
+    }
+    let decoded = std::panic::catch_unwind(|| (codec.decode)(input));
+    let decoded = match decoded {
+        Ok(d) => d,
+        Err(_) => {
+            st.add("decoder_panicked(C13 territory)", 1);
+            rep.inconclusive(&format!("{}: decoder panicked in-process on a C12 input (totality is C13's property); input {}", codec.name, hex(&input[..input.len().min(40)])));
+            return false;
+        }
+    };
+    match decoded {
         Dec::Err(l) => {
             st.add(&format!("err:{l}"), 1);
             if is_cbor_value_level(codec) && cborx::canonical_violation(input, codec.family == Family::CborAbi).is_none() {
@@ -401,13 +419,24 @@ pub fn run(args: &Args, all: Vec<Codec>) -> i32 {
             units.push((ci, Phase::Mutate { sub, n: mn }));
         }
     }
-    // interleave so that no codec is starved when the budget runs out
+    // interleave so that no codec is starved when the budget runs out: round trips of every
+    // codec first, then enumerations, then mutations
+    units.sort_by_key(|(ci, p)| match p {
+        Phase::Roundtrip { sub, .. } => (0u8, *sub, *ci),
+        Phase::Exhaust { len, lo, .. } => (1, (*len as u64) << 16 | u64::from(*lo), *ci),
+        Phase::Mutate { sub, .. } => (2, *sub, *ci),
+        Phase::Neighbourhood { sub, .. } => (3, *sub, *ci),
+    });
     let n_units = units.len();
     let complete = std::sync::atomic::AtomicBool::new(true);
     run_shards(&mut rep, args.jobs, n_units, |i, rep| {
         let (ci, phase) = units[i];
+        let t0 = std::time::Instant::now();
         if !run_unit(&codecs[ci], phase, args, &budget, rep) {
             complete.store(false, std::sync::atomic::Ordering::Relaxed);
+        }
+        if std::env::var_os("VERIF_C12_TIMING").is_some() {
+            eprintln!("TIMING {:8.2}s {} {:?}", t0.elapsed().as_secs_f64(), codecs[ci].name, phase);
         }
     });
     let complete = complete.load(std::sync::atomic::Ordering::Relaxed);
